@@ -82,15 +82,18 @@ class Init(Contract):
                 "StateMachine.allow_event_without_transition", "StateMachine._callbacks",
                 "StateMachine._states_for_instance", "StateMachine._listeners", "StateMachine._engine",
                 "Model.state+", "idict.has+", "idict.val+", "dict.has+", "dict.val+"]
-    properties = ["C10"]
+    properties = ["C10", "C12", "C16"]
 
     def post(self, s0, s, a, r):
         me = a.self.e
         m = s.sel("StateMachine.model", me)
         return {
-            "C10|the-users-model-object-is-the-one-used": z3.Implies(a.model.e != NONE, m == a.model.e),
+            "C10,C12|the-users-model-object-is-the-one-used": z3.Implies(a.model.e != NONE, m == a.model.e),
             "C10|a-fresh-model-only-when-none-is-given": z3.Implies(a.model.e == NONE, z3.And(
                 m >= s0["ghost.alloc"], s.sel("Model.state", m) == NONE)),
+            "C16|own-fresh-registry-state-cache-and-listener-table": z3.And(
+                s.sel("StateMachine._callbacks", me) >= s0["ghost.alloc"], s.sel("StateMachine._states_for_instance", me) >= s0["ghost.alloc"],
+                s.sel("StateMachine._listeners", me) >= s0["ghost.alloc"]),
             "C10|options-stored-as-given": z3.And(
                 s.sel("StateMachine.state_field", me) == a.state_field.e,
                 s.sel("StateMachine.start_value", me) == a.start_value.e,
